@@ -388,7 +388,7 @@ func verifC12Mutate(t *rapid.T, raw string, n int) string {
 		if !ok {
 			return raw
 		}
-		m := rapid.IntRange(0, 11).Draw(t, "mut")
+		m := rapid.IntRange(0, 12).Draw(t, "mut")
 		pos := 0
 		if len(segs) > 0 {
 			pos = rapid.IntRange(0, len(segs)-1).Draw(t, "mutpos")
@@ -432,6 +432,11 @@ func verifC12Mutate(t *rapid.T, raw string, n int) string {
 		case 10: // broken escape
 			if len(segs) > 0 {
 				segs[pos] += verifC12Pick(t, []string{"%", "%2", "%zz", "%G0"}, "broken")
+			}
+		case 12: // write one path separator as %2F (two segments collapse into one)
+			if len(segs) > 1 && pos+1 < len(segs) {
+				merged := segs[pos] + "%2F" + segs[pos+1]
+				segs = append(append(segs[:pos:pos], merged), segs[pos+2:]...)
 			}
 		case 11: // scheme
 			raw = verifC12Pick(t, []string{"SPIFFE", "https", "spiffe2"}, "scheme") + raw[len("spiffe"):]
